@@ -172,6 +172,24 @@ def concernsRef (r : CRef) (self edited : List Char) : Bool :=
   | some q => q.name = edited
   | none => self = edited
 
+/-! ## defined names: the range of a name address (a sheet name and a `Range`) under an edit of
+   the sheet the address refers to -/
+
+def insOpt (p : Option Ref) (at_ n : Nat) : Option Ref := p.map (fun x => ⟨insNum x.num at_ n, x.lock⟩)
+
+/-- `n` lines inserted at `at_`: every part at or behind the insertion point moves by `n` -/
+def shiftRangeInsert (ρ : Range) (ax : Axis) (at_ n : Nat) : Range :=
+  match ax with
+  | .col => { ρ with startCol := insOpt ρ.startCol at_ n, endCol := insOpt ρ.endCol at_ n }
+  | .row => { ρ with startRow := insOpt ρ.startRow at_ n, endRow := insOpt ρ.endRow at_ n }
+
+/-- the lines `[at_, at_ + n)` removed: `none` = the whole target was deleted; a range that loses
+    one end is clamped to what is left of it (`remAxis`) -/
+def shiftRangeRemove (ρ : Range) (ax : Axis) (at_ n : Nat) : Option Range :=
+  match ax with
+  | .col => (remAxis ρ.startCol ρ.endCol at_ n).map fun c => { ρ with startCol := c.1, endCol := c.2 }
+  | .row => (remAxis ρ.startRow ρ.endRow at_ n).map fun r => { ρ with startRow := r.1, endRow := r.2 }
+
 /-! ## the formula AST -/
 
 inductive ErrLit where
@@ -195,6 +213,14 @@ def BinOp.text : BinOp → List Char
   | .add => ['+'] | .sub => ['-'] | .mul => ['*'] | .div => ['/'] | .pow => ['^'] | .cat => ['&']
   | .eq => ['='] | .lt => ['<'] | .gt => ['>'] | .le => ['<', '='] | .ge => ['>', '='] | .ne => ['<', '>']
 
+/-- an element of an array constant: a number (possibly negated), a string, a boolean or an error -/
+inductive Const where
+  | num (neg : Bool) (t : List Char)
+  | str (s : List Char)
+  | bool (b : Bool)
+  | err (e : ErrLit)
+  deriving Repr, DecidableEq
+
 mutual
   inductive Expr where
     | num (t : List Char)        -- number literal as written
@@ -203,7 +229,8 @@ mutual
     | err (e : ErrLit)
     | name (n : List Char)       -- defined name
     | ref (r : CRef)
-    | opaque (t : List Char)     -- array constant, structured reference: an atom
+    | opaque (t : List Char)     -- structured reference: an atom
+    | array (rows : List (List Const))   -- array constant `{a,b;c,d}`: rows of constants
     | neg (e : Expr)
     | pos (e : Expr)
     | pct (e : Expr)
@@ -220,6 +247,24 @@ end
 
 def dbl (s : List Char) : List Char := s.flatMap (fun c => if c = '"' then ['"', '"'] else [c])
 
+def Const.print : Const → List Char
+  | .num neg t => (if neg then ['-'] else []) ++ t
+  | .str s => '"' :: (dbl s ++ ['"'])
+  | .bool b => if b then ['T', 'R', 'U', 'E'] else ['F', 'A', 'L', 'S', 'E']
+  | .err e => e.text
+
+/-- the elements of a row are separated by commas -/
+def printRow : List Const → List Char
+  | [] => []
+  | [c] => c.print
+  | c :: r => c.print ++ ',' :: printRow r
+
+/-- the rows of an array constant are separated by semicolons -/
+def printRows : List (List Const) → List Char
+  | [] => []
+  | [r] => printRow r
+  | r :: rs => printRow r ++ ';' :: printRows rs
+
 mutual
   def Expr.print : Expr → List Char
     | .num t => t
@@ -229,6 +274,7 @@ mutual
     | .name n => n
     | .ref r => r.text
     | .opaque t => t
+    | .array rows => '{' :: (printRows rows ++ ['}'])
     | .neg e => '-' :: e.print
     | .pos e => '+' :: e.print
     | .pct e => e.print ++ ['%']
@@ -289,8 +335,13 @@ def shiftRemove (e : Expr) (self edited : List Char) (ax : Axis) (at_ n : Nat) :
 /-! ## lexical well-formedness: an independent scanner
 
   `Clean s`: string literals and quoted names are closed, brackets are closed, error literals are
-  complete, parentheses are balanced, commas occur only inside parentheses, and there is no array
-  constant (`{`, `}`, `;` outside literals — array constants are the known finding C09-array-const). -/
+  complete, parentheses and braces are balanced and properly nested, commas occur only inside
+  parentheses or braces, semicolons only directly inside braces (array constants `{1,2;3,4}`). -/
+
+/-- an open bracket: `(` of a call / subexpression, or `{` of an array constant -/
+inductive Br where
+  | paren | brace
+  deriving Repr, DecidableEq
 
 inductive SMode where
   | normal | str | strQ | path | pathQ | bracket
@@ -299,40 +350,42 @@ inductive SMode where
 
 structure Scan where
   mode : SMode
-  depth : Nat
+  stack : List Br
   deriving Repr, DecidableEq
 
 def errTexts : List (List Char) :=
   [ErrLit.null.text, ErrLit.div0.text, ErrLit.value.text, ErrLit.ref.text, ErrLit.name.text,
    ErrLit.num.text, ErrLit.na.text]
 
-/-- a character outside every literal, at parenthesis depth `d` -/
-def scanNormal (d : Nat) (c : Char) : Option Scan :=
+/-- a character outside every literal, inside the open brackets `d` (innermost first) -/
+def scanNormal (d : List Br) (c : Char) : Option Scan :=
   if c = '"' then some ⟨.str, d⟩
   else if c = '\'' then some ⟨.path, d⟩
   else if c = '[' then some ⟨.bracket, d⟩
   else if c = '#' then some ⟨.err ['#'], d⟩
-  else if c = '{' || c = ';' || c = '}' then none
-  else if c = '(' then some ⟨.normal, d + 1⟩
-  else if c = ')' then (if d = 0 then none else some ⟨.normal, d - 1⟩)
-  else if c = ',' then (if d = 0 then none else some ⟨.normal, d⟩)
+  else if c = '{' then some ⟨.normal, .brace :: d⟩
+  else if c = ';' then (match d with | .brace :: _ => some ⟨.normal, d⟩ | _ => none)
+  else if c = '}' then (match d with | .brace :: r => some ⟨.normal, r⟩ | _ => none)
+  else if c = '(' then some ⟨.normal, .paren :: d⟩
+  else if c = ')' then (match d with | .paren :: r => some ⟨.normal, r⟩ | _ => none)
+  else if c = ',' then (if d = [] then none else some ⟨.normal, d⟩)
   else some ⟨.normal, d⟩
 
 def scanStep (s : Scan) (c : Char) : Option Scan :=
   match s.mode with
-  | .normal => scanNormal s.depth c
-  | .str => some ⟨if c = '"' then .strQ else .str, s.depth⟩
-  | .strQ => if c = '"' then some ⟨.str, s.depth⟩ else scanNormal s.depth c
-  | .path => some ⟨if c = '\'' then .pathQ else .path, s.depth⟩
-  | .pathQ => if c = '\'' then some ⟨.path, s.depth⟩ else scanNormal s.depth c
-  | .bracket => some ⟨if c = ']' then .normal else .bracket, s.depth⟩
-  | .err acc => some ⟨if errTexts.contains (acc ++ [c]) then .normal else .err (acc ++ [c]), s.depth⟩
+  | .normal => scanNormal s.stack c
+  | .str => some ⟨if c = '"' then .strQ else .str, s.stack⟩
+  | .strQ => if c = '"' then some ⟨.str, s.stack⟩ else scanNormal s.stack c
+  | .path => some ⟨if c = '\'' then .pathQ else .path, s.stack⟩
+  | .pathQ => if c = '\'' then some ⟨.path, s.stack⟩ else scanNormal s.stack c
+  | .bracket => some ⟨if c = ']' then .normal else .bracket, s.stack⟩
+  | .err acc => some ⟨if errTexts.contains (acc ++ [c]) then .normal else .err (acc ++ [c]), s.stack⟩
 
 def scanFrom (s : Scan) : List Char → Option Scan
   | [] => some s
   | c :: r => match scanStep s c with | some s' => scanFrom s' r | none => none
 
-def scan (s : List Char) : Option Scan := scanFrom ⟨.normal, 0⟩ s
+def scan (s : List Char) : Option Scan := scanFrom ⟨.normal, []⟩ s
 
 def closedMode : SMode → Bool
   | .normal | .strQ | .pathQ => true
@@ -340,7 +393,7 @@ def closedMode : SMode → Bool
 
 def Clean (s : List Char) : Bool :=
   match scan s with
-  | some r => r.depth = 0 && closedMode r.mode
+  | some r => r.stack.isEmpty && closedMode r.mode
   | none => false
 
 /-! ## leaves that are lexically what they claim to be -/
@@ -352,10 +405,14 @@ def isPlainChar (c : Char) : Bool :=
 
 def plainText (t : List Char) : Bool := t.all isPlainChar
 
+def Const.Lexical : Const → Prop
+  | .num _ t => plainText t = true
+  | _ => True
+
 mutual
   /-- numbers, names and function names are plain text; references are well-formed and an
-      unquoted sheet qualifier is plain text; no opaque atoms (array constants, structured
-      references) -/
+      unquoted sheet qualifier is plain text; the numbers of an array constant are plain text;
+      no opaque atoms (structured references) -/
   def Expr.Lexical : Expr → Prop
     | .num t => plainText t = true
     | .str _ => True
@@ -364,6 +421,7 @@ mutual
     | .name n => plainText n = true
     | .ref r => r.WF ∧ ∀ q, r.sheet = some q → q.quoted = false → plainText q.name = true
     | .opaque _ => False
+    | .array rows => ∀ r ∈ rows, ∀ c ∈ r, c.Lexical
     | .neg e => e.Lexical
     | .pos e => e.Lexical
     | .pct e => e.Lexical
